@@ -123,6 +123,58 @@ SB_OP(rgbw_row)
     addu(out, h);
 }
 
+// rgbwseq step... : one conversion object through a sequence of set-up calls and conversions
+//   s | o | f<v> | r<r>,<g>,<b> | t<floatbits> | c<r>,<g>,<b>
+//   t answers T<r>,<g>,<b>,<r'>,<g'>,<b'> : the black-body colour of the temperature and of the temperature clamped to 1000..40000 K
+//   c answers C<r>,<g>,<b>,<w>
+SB_OP(rgbwseq)
+{
+    sb_rgbw_conversion_t conv;
+    memset(&conv, 0, sizeof(conv));
+    for (size_t i = 2; i < t.size(); i++) {
+        const std::string& st = t[i];
+        unsigned a = 0, b = 0, c = 0;
+        char buf[96];
+        switch (st[0]) {
+        case 's':
+            sb_rgbw_conversion_use_min_subtraction(&conv);
+            break;
+        case 'o':
+            sb_rgbw_conversion_turn_off(&conv);
+            break;
+        case 'f':
+            sb_rgbw_conversion_use_fixed_value(&conv, (uint8_t)strtoul(st.c_str() + 1, nullptr, 10));
+            break;
+        case 'r': {
+            sscanf(st.c_str() + 1, "%u,%u,%u", &a, &b, &c);
+            sb_rgb_color_t ref = { (uint8_t)a, (uint8_t)b, (uint8_t)c };
+            sb_rgbw_conversion_use_reference_color(&conv, ref);
+            break;
+        }
+        case 't': {
+            float temp = tokf(st.substr(1));
+            sb_rgb_color_t bb = sb_rgb_color_from_color_temperature(temp);
+            float cl = temp < 1000 ? 1000.0f : (temp > 40000 ? 40000.0f : temp);
+            sb_rgb_color_t bc = sb_rgb_color_from_color_temperature(cl);
+            sb_rgbw_conversion_use_color_temperature(&conv, temp);
+            snprintf(buf, sizeof buf, "T%u,%u,%u,%u,%u,%u", bb.red, bb.green, bb.blue, bc.red, bc.green, bc.blue);
+            add(out, std::string(buf));
+            break;
+        }
+        case 'c': {
+            sscanf(st.c_str() + 1, "%u,%u,%u", &a, &b, &c);
+            sb_rgb_color_t col = { (uint8_t)a, (uint8_t)b, (uint8_t)c };
+            sb_rgbw_color_t r = sb_rgb_color_to_rgbw(col, conv);
+            snprintf(buf, sizeof buf, "C%u,%u,%u,%u", r.red, r.green, r.blue, r.white);
+            add(out, std::string(buf));
+            break;
+        }
+        default:
+            add(out, std::string("?"));
+        }
+    }
+}
+
 // bufops o<n>|v<hex> ops...
 SB_OP(bufops)
 {
